@@ -527,11 +527,14 @@ fn check_server(case: &ServerCase, which: Which) -> Outcome {
         // (b) end to end through the daemon's server task over loopback UDP
         match udp_exchange(case) {
             Err(f) => return Outcome { failure: Some(f), labels: vec!["e2e-udp"], nontrivial: true },
-            Ok((sent, answered)) => {
+            Ok((sent, answered, variants)) => {
                 let mut o = check_server_lib(case, which);
                 o = o.label(if sent == 0 { "e2e-udp-unavailable-or-empty" } else { "e2e-udp" });
                 if answered > 0 {
                     o = o.label("e2e-udp-answered");
+                }
+                if variants > 0 {
+                    o = o.label("e2e-udp-boundary-variants");
                 }
                 return o;
             }
@@ -653,7 +656,7 @@ fn request_ident(req: &[u8]) -> Option<[u8; 8]> {
 
 /// Sends the case's datagrams to a real `ServerTask` bound to a loopback port and checks every
 /// reply against the request it echoes. Returns (sent, answered).
-pub fn udp_exchange(case: &ServerCase) -> Result<(usize, usize), Failure> {
+pub fn udp_exchange(case: &ServerCase) -> Result<(usize, usize, usize), Failure> {
     use ntp_proto::{FilterAction, FilterList, KeySetProvider, Server};
     use ntpd::verif_hook::{DaemonServerConfig, ServerStats, ServerTask};
     use std::sync::{Arc, RwLock};
@@ -676,6 +679,8 @@ pub fn udp_exchange(case: &ServerCase) -> Result<(usize, usize), Failure> {
         let (_tx, rx) = tokio::sync::watch::channel(provider.get());
         let info = Arc::new(RwLock::new(make_info(&case.state, case.key_seed)));
         let now = Arc::new(std::sync::atomic::AtomicU64::new(0x1234_5678_0000_0000));
+        // library-level twin with an unrestricted buffer: tells how long the full answer to a datagram would be
+        let mut twin = Server::new_internal(dcfg.clone().into(), FixedClock(now.clone()), info.clone(), provider.get());
         let server = Server::new_internal(dcfg.clone().into(), FixedClock(now), info, provider.get());
         let handle = ServerTask::spawn(server, dcfg, ServerStats::default(), rx, Duration::from_millis(5));
         let res = async {
@@ -698,11 +703,12 @@ pub fn udp_exchange(case: &ServerCase) -> Result<(usize, usize), Failure> {
             }
             if !up {
                 // sockets not available in this environment: the library-level clause still stands
-                return Ok((0usize, 0usize));
+                return Ok((0usize, 0usize, 0usize));
             }
             let jar = CookieJar { keysets: &keysets, foreign: &foreign };
             let mut sent: Vec<([u8; 8], usize)> = Vec::new();
             let mut answered = 0usize;
+            let mut variants = 0usize;
             let judge = |reply: &[u8], sent: &[([u8; 8], usize)]| -> Result<bool, Failure> {
                 if reply.len() < 48 {
                     return Err(Failure { signature: "e2e-reply-shorter-than-a-header".into(), what: format!("{} bytes", reply.len()) });
@@ -737,6 +743,35 @@ pub fn udp_exchange(case: &ServerCase) -> Result<(usize, usize), Failure> {
                         answered += 1;
                     }
                 }
+                // boundary-directed variants: when the unrestricted answer would outgrow the datagram,
+                // lengthen the datagram's tail so that it ends 1..3 bytes (and 4) short of that answer
+                let mut big = [0u8; 4096];
+                let mut st = crate::w_server::RecStats::default();
+                let full = match twin.handle(std::net::IpAddr::from([127, 0, 0, 1]), nh::time::timestamp_from_raw(1), &b, &mut big, &mut st) {
+                    ntp_proto::ServerAction::Respond { message } => message.len(),
+                    ntp_proto::ServerAction::Ignore => 0,
+                };
+                if full > b.len() && full - b.len() <= 28 {
+                    for short in 1..=4usize {
+                        if full - short <= b.len() {
+                            continue;
+                        }
+                        let mut v = b.clone();
+                        v.resize(full - short, 0x55);
+                        // own identifier so that the reply is matched to this variant only
+                        let at = if (v[0] >> 3) & 7 == 5 { 24 } else { 40 };
+                        let tag = 0x5641_5200_0000_0000u64 | ((i as u64) << 8) | short as u64;
+                        v[at..at + 8].copy_from_slice(&tag.to_be_bytes());
+                        sent.push((tag.to_be_bytes(), v.len()));
+                        variants += 1;
+                        let _ = sock.send(&v).await;
+                        if let Ok(Ok(n)) = tokio::time::timeout(Duration::from_millis(6), sock.recv(&mut buf)).await {
+                            if judge(&buf[..n], &sent)? {
+                                answered += 1;
+                            }
+                        }
+                    }
+                }
             }
             // two fixed datagrams whose full-size answer would outgrow them (the known C17 classes):
             // a correct daemon drops them, a daemon that hands out a larger buffer answers too long
@@ -762,7 +797,7 @@ pub fn udp_exchange(case: &ServerCase) -> Result<(usize, usize), Failure> {
                     answered += 1;
                 }
             }
-            Ok((sent.len(), answered))
+            Ok((sent.len(), answered, variants))
         }
         .await;
         handle.abort();
